@@ -391,7 +391,8 @@ func (fr *FileReader) readerForOffset(ctx context.Context, off int64) (io.ReadCl
 		io.Reader
 		io.Closer
 	}{
-		io.LimitReader(rsc, int64(p0.Size)),
+		// Only what is left of the part after the in-part offset.
+		io.LimitReader(rsc, int64(p0.Size)-(offRemain-int64(p0.Offset))),
 		rsc,
 	}, nil
 }
